@@ -550,3 +550,28 @@ package parse
 //@   modifies received(t.lex.items)
 //@   modifies t.Root
 //@   ensures tokWF(t) && t.peekCount <= 1
+
+// ---------------------------------------------------------------------------
+// Parser / lexer hand-over (C07): "after the call has returned, no goroutine started by it remains". The lexer
+// goroutine ends when it has sent a terminal item (proved on the lexer side); every send needs a receive. So the
+// parser may let go of its lexer (stopParse) only when the last item it received ended the scan (EOF or Error),
+// or when it has drained the channel until it was reported closed.
+//@ define lexDone(l) = l == nil || chandrained(l.items) || (nrecv(l.items) >= 1 && (chanitem(l.items, nrecv(l.items) - 1).typ == itemEOF || chanitem(l.items, nrecv(l.items) - 1).typ == itemError))
+//@ func (*Tree).stopParse
+//@   requires t != nil && lexDone(t.lex)
+//@   modifies t.lex
+//@   nopanic
+//@   ensures t.lex == nil
+//@ func lexWithInterner
+//@   assumed
+//@   ensures result != nil && isfresh(result) && result.items != nil
+//@ func (*Tree).parse
+//@   assumed
+//@   requires t != nil && t.lex != nil
+//@   modifies *
+//@   preserves t.lex
+//@   preserves t.lex.items
+//@   ensures nrecv(t.lex.items) >= 1 && chanitem(t.lex.items, nrecv(t.lex.items) - 1).typ == itemEOF
+//@ func (*Tree).Parse
+//@   requires t != nil
+//@   modifies *
